@@ -152,3 +152,13 @@ Proof.
       * apply IHr; [assumption|]. intros q Hq. apply B1. right. exact Hq.
     + intros p Hin. apply in_app_or in Hin. destruct Hin as [Hin|Hin]; [destruct (B1 p Hin); lia|specialize (B2 p Hin); lia].
 Qed.
+
+Theorem listed_iff0 : forall o l res, clashes_from o 0 l = Ok res ->
+    forall i j, In (i, j) res <->
+      exists a b, i < j /\ nth_error l i = Some a /\ nth_error l j = Some b /\ pair_ok o a b = true.
+Proof.
+  intros o l res H i j. rewrite (listed_iff o l 0 res H i j). rewrite !Nat.sub_0_r.
+  split; intros (a & b & X); exists a, b; intuition lia.
+Qed.
+Theorem listed_once0 : forall o l res, clashes_from o 0 l = Ok res -> NoDup res.
+Proof. intros o l res H. exact (proj1 (listed_once o l 0 res H)). Qed.
